@@ -237,7 +237,11 @@ func (g *GRE) NextLayerType() gopacket.LayerType {
 }
 
 func (g *GRE) VerifyChecksum() (error, gopacket.ChecksumVerificationResult) {
-	bytes := append(g.Contents, g.Payload...)
+	// Do not append to g.Contents directly: it has spare capacity inside the
+	// packet buffer, so that would write into (shared) packet data.
+	bytes := make([]byte, 0, len(g.Contents)+len(g.Payload))
+	bytes = append(bytes, g.Contents...)
+	bytes = append(bytes, g.Payload...)
 
 	existing := g.Checksum
 	verification := gopacket.ComputeChecksum(bytes, 0)
